@@ -1,12 +1,15 @@
 """C18 -- Coordinate conversions are mutually inverse and match the documented definitions.
 
 proof stage      : Props/C18.v (models Bmadx/Coords.v, Beam/SI.v)
-correspondence   : the real conversion functions (cheetah.utils.bmadx.cheetah_to_bmad_z_pz / bmad_to_cheetah_z_pz,
+correspondence   : the real conversion functions (cheetah.utils.bmadx.cheetah_to_bmad_z_pz / bmad_to_cheetah_z_pz, the full-coordinate
+                   wrappers cheetah_to_bmad_coords / bmad_to_cheetah_coords,
                    ParticleBeam.to_xyz_pxpypz / from_xyz_pxpypz / energies / momenta / p0c / relativistic_*) are called on
                    sampled particles in float64 and float32; inputs and observed outputs become exact dyadic literals and
                    `Rabs (model - observed) <= tol` is closed by `interval`.
 oracle           : round trips and the documented definitions evaluated in 60-digit decimal arithmetic, directly on the
-                   implementation.
+                   implementation; for the full-coordinate wrappers also: shapes, dtype preserved (float32 and float64), transverse
+                   coordinates copied bit for bit, agreement with the *_z_pz helpers, vectorised == per sample, input not modified.
+                   An exception raised by the implementation is an observation (a failing input), never a crash of the check.
 """
 import json
 import math
@@ -112,6 +115,23 @@ def gen_si_case(rng, dtype):
             return {"kind": "si", "dtype": dtype, "E0": E0, "particles": parts}
 
 
+def gen_coords_case(rng, dtype):
+    """full 7-dimensional Cheetah coordinates for cheetah_to_bmad_coords / bmad_to_cheetah_coords"""
+    m = consts()[0]
+    t = DT[dtype]
+    while True:
+        E0 = f(torch.tensor(gen_energy(rng), dtype=t))
+        n = rng.randint(1, 4)
+        parts = []
+        for _ in range(n):
+            parts.append([rng.uniform(-5e-3, 5e-3), rng.choice([0.0, rng.uniform(-2e-3, 2e-3)]), rng.uniform(-5e-3, 5e-3),
+                          rng.uniform(-2e-3, 2e-3), gen_tau(rng), gen_delta(rng), 1.0])
+        parts = torch.tensor(parts, dtype=t).tolist()
+        p0 = math.sqrt(E0 * E0 - m * m)
+        if all(E0 + p[5] * p0 > 1.15 * m for p in parts):
+            return {"kind": "coords", "dtype": dtype, "E0": E0, "particles": parts}
+
+
 # ------------------------------------------------------------------------------------------------ observation
 def observe_bmad(case):
     from cheetah.utils import bmadx
@@ -127,6 +147,44 @@ def observe_bmad(case):
     # and forward again from the backward result (Bmad -> Cheetah -> Bmad)
     z3, pz3, p0c3 = bmadx.cheetah_to_bmad_z_pz(tau2, delta2, E02, m)
     obs.update({"z3": z3.tolist(), "pz3": pz3.tolist(), "p0c3": f(p0c3)})
+    return obs
+
+
+def observe_coords(case):
+    """the full-coordinate wrappers: Cheetah -> Bmad -> Cheetah -> Bmad, the *_z_pz helpers on the same inputs, and a vectorised call"""
+    from cheetah.utils import bmadx
+    m = consts()[0]
+    t = DT[case["dtype"]]
+    coords = torch.tensor(case["particles"], dtype=t)
+    keep = coords.clone()
+    E0 = torch.tensor(case["E0"], dtype=t)
+    bm, p0c = bmadx.cheetah_to_bmad_coords(coords, E0, m)
+    bm_keep = bm.clone()
+    back, E02 = bmadx.bmad_to_cheetah_coords(bm, p0c, m)
+    bm3, p0c3 = bmadx.cheetah_to_bmad_coords(back, E02, m)
+    zh, pzh, p0h = bmadx.cheetah_to_bmad_z_pz(coords[..., 4], coords[..., 5], E0, m)
+    th, dh, Eh = bmadx.bmad_to_cheetah_z_pz(bm[..., 4], bm[..., 5], p0c, m)
+    obs = {"bmad": bm.tolist(), "p0c": f(p0c), "back": back.tolist(), "E02": f(E02), "bmad3": bm3.tolist(), "p0c3": f(p0c3),
+           "helper": {"z": zh.tolist(), "pz": pzh.tolist(), "p0c": f(p0h), "tau": th.tolist(), "delta": dh.tolist(), "E0": f(Eh)},
+           "shapes": [list(bm.shape), list(p0c.shape), list(back.shape), list(E02.shape)],
+           "dtypes": [str(x.dtype) for x in (bm, p0c, back, E02, bm3, p0c3)],
+           "input_modified": not (torch.equal(coords, keep) and torch.equal(bm, bm_keep))}
+    # vectorised call: two settings (different coordinates and reference energies) at once == one by one
+    cv = torch.stack([coords, 0.5 * coords])
+    cv[..., 6] = 1
+    Ev = torch.stack([E0, 1.5 * E0])
+    bv, pv = bmadx.cheetah_to_bmad_coords(cv, Ev, m)
+    kv, ev = bmadx.bmad_to_cheetah_coords(bv, pv, m)
+    vec = {"shapes": [list(bv.shape), list(pv.shape), list(kv.shape), list(ev.shape)], "dtypes": [str(x.dtype) for x in (bv, pv, kv, ev)]}
+    same = vec["shapes"] == [[2, len(coords), 6], [2], [2, len(coords), 7], [2]]
+    for k in range(2):
+        if not same:
+            break
+        b1, p1 = bmadx.cheetah_to_bmad_coords(cv[k], Ev[k], m)
+        k1, e1 = bmadx.bmad_to_cheetah_coords(bv[k], pv[k], m)
+        same = all(a.dtype == b.dtype and torch.equal(a, b) for a, b in ((b1, bv[k]), (p1, pv[k]), (k1, kv[k]), (e1, ev[k])))
+    vec["equals_per_sample"] = bool(same)
+    obs["vectorised"] = vec
     return obs
 
 
@@ -166,6 +224,29 @@ def bmad_goals(case, obs):
         zl, pzl, p0l = dyadic(obs["z"][i]), dyadic(obs["pz"][i]), dyadic(obs["p0c"])
         gs.append((goal(f"bc_tau {zl} {pzl} {p0l} {M}", obs["tau2"][i], rel * cnd * abs(obs["tau2"][i])), T_BC, "tau"))
         gs.append((goal(f"bc_delta {pzl} {p0l} {M}", obs["delta2"][i], rel * cnd * (abs(obs["delta2"][i]) + 1.0)), T_BC, "delta"))
+    return gs
+
+
+def coords_goals(case, obs):
+    """the wrappers' longitudinal outputs against the same Coq model as the helpers (the transverse columns are copies: oracle)"""
+    m = consts()[0]
+    rel = REL[case["dtype"]]
+    E0 = case["E0"]
+    M, E0l = dyadic(m), dyadic(E0)
+    p0 = math.sqrt(E0 * E0 - m * m)
+    gs = [(goal(f"cb_p0c {E0l} {M}", obs["p0c"], rel * cond_of(E0, m) * abs(obs["p0c"])), T_CB, "coords_p0c"),
+          (goal(f"bc_refE {dyadic(obs['p0c'])} {M}", obs["E02"], rel * abs(obs["E02"])), T_BC, "coords_ref_energy")]
+    for i, p in enumerate(case["particles"]):
+        E = E0 + p[5] * p0
+        cnd = max(cond_of(E0, m), cond_of(E, m))
+        tl, dl = dyadic(p[4]), dyadic(p[5])
+        z, pz = obs["bmad"][i][4], obs["bmad"][i][5]
+        gs.append((goal(f"cb_z {tl} {dl} {E0l} {M}", z, rel * cnd * abs(z)), T_CB, "coords_z"))
+        gs.append((goal(f"cb_pz {dl} {E0l} {M}", pz, rel * cnd * (abs(pz) + 1.0)), T_CB, "coords_pz"))
+        zl, pzl, p0l = dyadic(z), dyadic(pz), dyadic(obs["p0c"])
+        tau2, d2 = obs["back"][i][4], obs["back"][i][5]
+        gs.append((goal(f"bc_tau {zl} {pzl} {p0l} {M}", tau2, rel * cnd * abs(tau2)), T_BC, "coords_tau"))
+        gs.append((goal(f"bc_delta {pzl} {p0l} {M}", d2, rel * cnd * (abs(d2) + 1.0)), T_BC, "coords_delta"))
     return gs
 
 
@@ -239,6 +320,70 @@ def oracle_bmad(case, obs):
     return bad
 
 
+def oracle_coords(case, obs):
+    """cheetah_to_bmad_coords / bmad_to_cheetah_coords: shapes, working dtype kept, transverse coordinates and the constant 1 copied
+    bit for bit, longitudinal pair = documented definitions = what the *_z_pz helpers return, both round trips to round-off."""
+    m = D(consts()[0])
+    rel = ORACLE_REL[case["dtype"]]
+    E0 = D(case["E0"])
+    p0 = (E0 * E0 - m * m).sqrt()
+    cm = cond_of(case["E0"], float(m))
+    n = len(case["particles"])
+    bad = []
+
+    def chk(what, o, e, tol):
+        if not (math.isfinite(o) and close(o, e, tol)):
+            bad.append({"what": what, "observed": o, "expected": float(e), "tol": tol, "dev": abs(o - float(e))})
+
+    def same(what, o, e):
+        if not (o == e):
+            bad.append({"what": what, "observed": o, "expected": e})
+    want = "torch." + case["dtype"]
+    if any(d != want for d in obs["dtypes"]):
+        bad.append({"what": "dtype of a full-coordinate conversion result differs from the input dtype "
+                            "(order: bmad_coords, p0c, cheetah_coords, ref_energy, bmad_coords again, p0c again)",
+                    "observed": obs["dtypes"], "expected": want})
+    if obs["shapes"] != [[n, 6], [], [n, 7], []]:
+        bad.append({"what": "shapes of (bmad_coords, p0c, cheetah_coords, ref_energy)", "observed": obs["shapes"], "expected": [[n, 6], [], [n, 7], []]})
+        return bad
+    if obs["input_modified"]:
+        bad.append({"what": "a conversion modified its input tensor in place", "observed": True, "expected": False})
+    v = obs["vectorised"]
+    if any(d != want for d in v["dtypes"]) or not v["equals_per_sample"]:
+        bad.append({"what": "vectorised conversion (2 settings) differs from the per-setting conversions (shape, dtype or value)",
+                    "observed": v, "expected": {"equals_per_sample": True, "dtype": want}})
+    h = obs["helper"]
+    chk("p0c = sqrt(E0^2 - m^2)", obs["p0c"], p0, rel * cm * float(p0))
+    chk("p0c of the wrapper = p0c of cheetah_to_bmad_z_pz", obs["p0c"], D(h["p0c"]), rel * cm * float(p0))
+    chk("returned ref_energy = E0", obs["E02"], E0, rel * cm * float(E0))
+    chk("ref_energy of the wrapper = ref_energy of bmad_to_cheetah_z_pz", obs["E02"], D(h["E0"]), rel * cm * float(E0))
+    chk("returned p0c after Bmad->Cheetah->Bmad", obs["p0c3"], D(obs["p0c"]), rel * cm * float(p0))
+    names = ["x", "px", "y", "py"]
+    for i, p in enumerate(case["particles"]):
+        bm, bk, b3 = obs["bmad"][i], obs["back"][i], obs["bmad3"][i]
+        tau, d = p[4], p[5]
+        E = E0 + D(d) * p0
+        pc = (E * E - m * m).sqrt()
+        beta = pc / E
+        cnd = max(cm, cond_of(float(E), float(m)))
+        for j in range(4):
+            same(f"{names[j]} copied unchanged Cheetah->Bmad", bm[j], p[j])
+            same(f"{names[j]} copied unchanged Cheetah->Bmad->Cheetah", bk[j], p[j])
+            same(f"{names[j]} copied unchanged Bmad->Cheetah->Bmad", b3[j], p[j])
+        same("seventh Cheetah coordinate is 1", bk[6], 1.0)
+        chk("z = -beta*tau", bm[4], -beta * D(tau), rel * cnd * abs(tau))
+        chk("pz = (p - p0)/p0", bm[5], (pc - p0) / p0, rel * cnd * (1 + abs(float((pc - p0) / p0))))
+        chk("z of the wrapper = z of cheetah_to_bmad_z_pz", bm[4], D(h["z"][i]), rel * cnd * abs(tau))
+        chk("pz of the wrapper = pz of cheetah_to_bmad_z_pz", bm[5], D(h["pz"][i]), rel * cnd * (1 + abs(bm[5])))
+        chk("tau of the wrapper = tau of bmad_to_cheetah_z_pz", bk[4], D(h["tau"][i]), rel * cnd * abs(tau))
+        chk("delta of the wrapper = delta of bmad_to_cheetah_z_pz", bk[5], D(h["delta"][i]), rel * cnd * (1 + abs(d)))
+        chk("tau after Cheetah->Bmad->Cheetah (full coordinates)", bk[4], D(tau), 4 * rel * cnd * abs(tau))
+        chk("delta after Cheetah->Bmad->Cheetah (full coordinates)", bk[5], D(d), 4 * rel * cnd * (1 + abs(d)))
+        chk("z after Bmad->Cheetah->Bmad (full coordinates)", b3[4], D(bm[4]), 4 * rel * cnd * abs(bm[4]))
+        chk("pz after Bmad->Cheetah->Bmad (full coordinates)", b3[5], D(bm[5]), 4 * rel * cnd * (1 + abs(bm[5])))
+    return bad
+
+
 def oracle_si(case, obs):
     meV, mkg, c, mc = consts()
     rel = ORACLE_REL[case["dtype"]]
@@ -308,7 +453,7 @@ def oracle_vectorised(run):
             got = bv.energies
             ok = got.shape == exp.shape and torch.allclose(got, exp, rtol=1e-12, atol=0)
             res = "ok" if ok else "wrong values"
-        except RuntimeError as ex:
+        except Exception as ex:  # noqa
             res = "raises: " + str(ex)[:60]
         out.append({"batch": B, "n": n, "result": res})
         run.count("vectorised_energies_" + res.split(":")[0].replace(" ", "_"))
@@ -322,7 +467,7 @@ def main(tier, replay=None):
     thorough = tier == "thorough"
     run.cov["rule"] = ("reference energies log-uniform in [0.6 MeV, 20 GeV] (15% just above the rest energy), delta in +-0.05 (60%), +-0.3, 0 and "
                        "+-1e-9/1e-6, tau in {0, +-1e-5, +-1e-2, +-1}, transverse momenta +-2e-3, float64 and float32; every case calls the real "
-                       "conversion functions; non-trivial = at least one particle with delta != 0 and tau != 0; distinct by full input")
+                       "conversion functions (kinds: bmad = *_z_pz helpers, coords = full-coordinate wrappers *_coords, si = ParticleBeam SI conversions); non-trivial = at least one particle with delta != 0 and tau != 0; distinct by full input")
     if replay:
         return do_replay(run, replay)
     proof_ok = run.proof_stage()
@@ -333,22 +478,33 @@ def main(tier, replay=None):
 
     n_b = 240 if thorough else 18
     n_s = 160 if thorough else 12
+    n_c = 120 if thorough else 10
     cases, goals, owner, bad_new, known_hits = [], [], [], [], {}
-    for k in range(n_b + n_s):
+    for k in range(n_b + n_s + n_c):
         dtype = "float64" if k % 3 != 2 else "float32"
-        case = gen_bmad_case(run.rng, dtype) if k < n_b else gen_si_case(run.rng, dtype)
+        case = gen_bmad_case(run.rng, dtype) if k < n_b else gen_si_case(run.rng, dtype) if k < n_b + n_s else gen_coords_case(run.rng, dtype)
+        observe, mk_goals, oracle = {"bmad": (observe_bmad, bmad_goals, oracle_bmad), "si": (observe_si, si_goals, oracle_si),
+                                     "coords": (observe_coords, coords_goals, oracle_coords)}[case["kind"]]
         if case["kind"] == "bmad":
-            obs = observe_bmad(case)
-            gs = bmad_goals(case, obs)
-            bad = oracle_bmad(case, obs)
             nontriv = any(t != 0 and d != 0 for t, d in zip(case["tau"], case["delta"]))
         else:
-            obs = observe_si(case)
-            gs = si_goals(case, obs)
-            bad = oracle_si(case, obs)
             nontriv = any(p[4] != 0 and p[5] != 0 for p in case["particles"])
+        try:
+            obs = observe(case)
+        except Exception as ex:  # noqa -- an exception of the implementation on a valid input is an observation
+            run.add_case(case, nontriv)
+            run.count(f"{case['kind']}_{dtype}")
+            run.count("implementation_raises")
+            bad_new.append({"case": case, "failure": {"what": "the conversion raises on a physical input", "observed": repr(ex)[:300]}})
+            continue
+        try:
+            gs = mk_goals(case, obs)
+            bad = oracle(case, obs)
+        except Exception as ex:  # noqa -- malformed results (wrong shape/type) of the implementation
+            gs = []
+            bad = [{"what": "the results of the conversion cannot be evaluated (wrong shape or type)", "observed": repr(ex)[:300]}]
         want = "torch." + dtype
-        if any(d != want for d in obs["dtypes"]):
+        if case["kind"] != "coords" and any(d != want for d in obs["dtypes"]):
             bad.append({"what": "dtype of a conversion result differs from the input dtype", "observed": obs["dtypes"], "expected": want})
         run.add_case(case, nontriv)
         run.count(f"{case['kind']}_{dtype}")
@@ -369,15 +525,20 @@ def main(tier, replay=None):
     run.cov["interval_goals"] = len(goals)
     vect = oracle_vectorised(run)
     run.cov["tested_only"] = ["float32 SI conversions (only the oracle; the model is a real-number formula and float32 squares of SI momenta underflow)",
-                              "dtype preservation of conversion results", "vectorised ParticleBeam.energies (F17)"]
+                              "dtype preservation of conversion results",
+                              "full-coordinate wrappers cheetah_to_bmad_coords / bmad_to_cheetah_coords: transverse columns copied bit for bit, "
+                              "shapes, vectorised == per setting, inputs not modified (their longitudinal outputs are also checked against the Coq model)", "vectorised ParticleBeam.energies (F17)"]
 
     # ---- known findings: replay the stored inputs, classify
     listed = {f["id"]: f for f in common.load_known_findings(PID) if f.get("status") == "known"}
     for fid, fnd in listed.items():
         r = fnd["replay"]
         if r.get("kind") == "si":
-            obs = observe_si(r)
-            hit = [b for b in oracle_si(r, obs) if classify_si(r, b) == fid]
+            try:
+                hit = [b for b in oracle_si(r, observe_si(r)) if classify_si(r, b) == fid]
+            except Exception as ex:  # noqa -- not the listed signature; the generated cases report an implementation that raises
+                hit = []
+                run.notes.append(f"replay of known finding {fid} raises: {repr(ex)[:200]}")
             if hit:
                 run.known(fnd["what"])
             else:
@@ -412,14 +573,22 @@ def main(tier, replay=None):
     return run.finish("proof")
 
 
+def guarded(fn):
+    try:
+        return fn()
+    except Exception as ex:  # noqa
+        return [{"what": "the conversion raises on this input", "observed": repr(ex)[:300]}]
+
+
 def do_replay(run, path):
     r = json.loads(open(path).read())
     case = r["case"]
     if case.get("kind") == "bmad":
-        bad = oracle_bmad(case, observe_bmad(case))
+        bad = guarded(lambda: oracle_bmad(case, observe_bmad(case)))
+    elif case.get("kind") == "coords":
+        bad = guarded(lambda: oracle_coords(case, observe_coords(case)))
     elif case.get("kind") == "si":
-        obs = observe_si(case)
-        bad = [b for b in oracle_si(case, obs) if not classify_si(case, b)]
+        bad = guarded(lambda: [b for b in oracle_si(case, observe_si(case)) if not classify_si(case, b)])
     else:
         bad = [v for v in oracle_vectorised(run) if v["result"] != "ok"]
     print("replay:", "property holds on this input" if not bad else f"property FAILS on this input: {json.dumps(bad[:3])}")
